@@ -723,10 +723,12 @@ async fn seq_client<C: CacheFactory>(dl: Arc<DataLoader<SimLoader, C>>, cache: C
                     s.viol = Some(("C29/loader-keys".into(), format!("operation #{i} {:?}: the loader was asked for {:?}, the reference cache misses {:?} (caching enabled: {enabled})", op, called, misses)));
                     return;
                 }
+                // (an implementation may call the loader again, e.g. a retry: the last call decides)
                 let mut failed = None;
                 for c in &calls {
                     match &c.outcome {
                         CallOutcome::Ok { returned, .. } => {
+                            failed = None;
                             for (k, v) in returned {
                                 expect.insert(*k, *v);
                                 if enabled && s.model[kti].put(*k, *v) {
